@@ -545,6 +545,9 @@ mod share;
 mod share2;
 pub mod sync;
 pub mod task;
+#[cfg(feature = "uazu-stakker-verif")]
+#[doc(hidden)]
+pub mod verif_std;
 mod timers;
 
 #[cfg(test)]
